@@ -402,6 +402,18 @@ pub const NEGATIVE: &[&str] = &[
     "c := mut 5; t := (c, 1); w := (p: (mut (int|string), int)) { p.0 = \"s\" }; w(t); *c + 1",
     "c := mut 5; s := struct{a := c}; w := (p: struct{a: mut any}) { p.a = () }; w(s); *c + 1",
     "c := mut 5; d := mut mut (int|string) c; 1",
+    // a target whose static type is a union of cell types: the value must fit every member
+    "w := (t: mut int | mut string) { t = \"t\" }; c := mut 5; w(c); *c + 1",
+    "w := (t: mut int | mut string) { t = 7 }; c := mut \"s\"; w(c); *c + \"x\"",
+    "w := (t: mut float | mut [int]) { t = [3] }; c := mut 2.5; w(c); *c * 2.0",
+    "c := mut 5; d := mut \"s\"; a := [c, d]; a[0] = \"t\"; *c + 1",
+    "c := mut 5; d := mut \"s\"; a := [c, d]; a[1] = 9; *d + \"x\"",
+    "c := mut 5; d := mut 2.5; pick := (b: bool) -> mut int | mut float { if b { return c } return d }; pick(true) = 1.5; *c + 1",
+    "c := mut 5; d := mut \"s\"; t := if true { c } else { d }; u := [t, d][0]; u = \"t\"; *c + 1",
+    "w := (t: mut int | mut (int|string)) { t = \"t\" }; c := mut 5; w(c); *c + 1",
+    "w := (t: mut int | mut string) { t += 1 }; c := mut \"s\"; w(c); *c + \"x\"",
+    "w := (t: struct{c: mut int} | struct{c: mut string}) { t.c = \"t\" }; x := mut 5; w(struct{c := x}); *x + 1",
+    "w := (t: (mut int, int) | (mut string, int)) { t.0 = \"t\" }; c := mut 5; w((c, 1)); *c + 1",
     // tuples, structs, arrays, unions, functions
     "f := (t: (int, int, int)) -> int { return t.2 }; f((1, 2))",
     "f := (t: (int, int)) -> int { return t.1 + 1 }; f((1, \"s\"))",
